@@ -179,5 +179,5 @@ func perInstC15(tier string) time.Duration {
 	if tier == "thorough" {
 		return 10 * time.Minute
 	}
-	return 2 * time.Minute
+	return 45 * time.Second
 }
